@@ -1,0 +1,8 @@
+//go:build verif
+
+package simple
+
+import "github.com/mit-pdos/go-journal/obj"
+
+// VerifLog exposes the journal to the verification harness (build tag verif).
+func (nfs *Nfs) VerifLog() *obj.Log { return nfs.t }
